@@ -55,6 +55,16 @@ def fq(h):
     return "%s::verif_kani::%s" % (rust_mod_path(h["module"]), h["name"])
 
 
+# textual substitutions applied to the scratch copy of a source file when the module is injected
+# (environment model: the dat-file handle becomes an in-memory file).  Each pattern must match
+# exactly once, otherwise the check answers "inconclusive" (exit 2) instead of guessing.
+TRANSFORMS = {
+    "sqpack_data": [
+        ("    file: std::fs::File,\n", "    file: crate::verif_support::memfile::MemFile,\n"),
+        ("            file: std::fs::File::open(path).ok()?,\n", "            file: crate::verif_support::memfile::MemFile::open(path)?,\n"),
+    ],
+}
+
 HARNESSES = []
 FS256 = ["--max-field-sensitivity-array-size", "256"]   # keep concrete bytes of buffers up to 256 B constant for symex
 FS1K = ["--max-field-sensitivity-array-size", "1024"]
@@ -235,9 +245,9 @@ H("C05", "exd", "c05_subrows_3x8", timeout=600, tier="thorough", unwind=40, boun
 H("C05", "exd", "c05_subrows_wide_records", timeout=300, unwind=8,
   bounds="3 sub-rows of 33000 bytes (stride arithmetic beyond 16 bits) over a short buffer; packed-bool column (out-of-range cells read as false)",
   encodes=_RR[:2], stubs=["EXD::read_data_raw -> guard returning None for reads past the end, real binrw reader otherwise"])
-for n in ("second", "first_of_duplicates", "unknown", "big_id"):
+for n in ("second", "first_of_duplicates", "unknown", "big_id", "unsorted_index"):
     H("C05", "exd", "c05_row_lookup_" + n, timeout=300, unwind=18,
-      bounds="two index entries, concrete ids per instance (match second / duplicate ids / no match / id >= 2^31), symbolic row contents", encodes=_RR,
+      bounds="two index entries, concrete ids per instance (match second / duplicate ids / no match / id >= 2^31 / index not sorted by id), symbolic row contents", encodes=_RR,
       cbmc_args=FS256)
 H("C05", "exd", "c05_pipeline_witness", expect="witness-fail", unwind=18, bounds="assert(false) twin")
 
@@ -378,7 +388,7 @@ H("C09", "gearsets", "c09g_pipeline_witness", expect="witness-fail", bounds="ass
 for n, t in (("name8", "quick"), ("name1", "quick"), ("name63", "thorough")):
     H("C10", "fiin", "c10_entry_layout_" + n, tier=t, unwind=70, timeout=300, bounds="one record: all sizes, all digests (symbolic), concrete name " + n, encodes=["fiin::FIINEntry (BinWrite)"], cbmc_args=FS256)
 H("C10", "fiin", "c10_table_layout_one_entry", unwind=70, timeout=600, bounds="table with one entry: all sizes / digests", encodes=["fiin::FileInfo (BinWrite)"], cbmc_args=["--max-field-sensitivity-array-size", "2048"])
-H("C10", "fiin", "c10_parse_one_entry", unwind=70, timeout=600, bounds="1120-byte table: all sizes / digest bytes, concrete name", encodes=["fiin::FileInfo::from_existing"], cbmc_args=["--max-field-sensitivity-array-size", "2048"])
+H("C10", "fiin", "c10_parse_one_entry", tier="thorough", unwind=70, timeout=600, bounds="1120-byte table: all sizes / digest bytes, concrete name", encodes=["fiin::FileInfo::from_existing"], cbmc_args=["--max-field-sensitivity-array-size", "2048"])
 H("C10", "fiin", "c10_pipeline_witness", expect="witness-fail", unwind=70, bounds="assert(false) twin", cbmc_args=FS256)
 
 # ================================================================================================
@@ -390,7 +400,7 @@ H("C16", "pbd", "c16p_pipeline_witness", expect="witness-fail", unwind=8, bounds
 H("C16", "cmp", "c16_scaling_row_exact", unwind=6, timeout=300, bounds="all 56-byte rows", encodes=["cmp::RacialScalingParameters (binrw)"])
 H("C16", "cmp", "c16c_pipeline_witness", expect="witness-fail", unwind=6, bounds="assert(false) twin")
 _FMT = ["alloc::fmt::format -> returns an empty String (file-name formatting is not the subject)"]
-H("C16", "tera", "c16_terrain_plate_positions", unwind=6, timeout=200, bounds="2 plates: all i16 coordinates, all plate sizes <= 4096", encodes=["tera::Terrain::from_existing", "tera::TerrainHeader (binrw)"],
+H("C16", "tera", "c16_terrain_plate_positions", tier="thorough", unwind=6, timeout=900, bounds="2 plates: all i16 coordinates, all plate sizes <= 4096", encodes=["tera::Terrain::from_existing", "tera::TerrainHeader (binrw)"],
   stubs=_FMT, cbmc_args=FS256)
 H("C16", "tera", "c16_terrain_write_grid_coordinates", unwind=6, timeout=600, bounds="1 plate on the 128-unit grid: all i16 x, y", encodes=["tera::Terrain::write_to_buffer"], cbmc_args=FS256)
 H("C16", "tera", "c16t_pipeline_witness", expect="witness-fail", unwind=6, bounds="assert(false) twin")
@@ -402,7 +412,7 @@ H("C14", "mtrl", "c14_legacy_color_row", unwind=13, timeout=600, bounds="all 32-
 H("C14", "mtrl", "c14_dawntrail_color_row", unwind=13, timeout=900, bounds="all 64-byte rows", encodes=["mtrl::DawntrailColorTableRow (BinRead)"], stubs=_H1)
 H("C14", "mtrl", "c14_dye_rows", unwind=6, timeout=300, bounds="all u16 legacy / u32 Dawntrail dye words", encodes=["mtrl::LegacyColorDyeTableRow", "mtrl::DawntrailColorDyeTableRow"])
 H("C14", "mtrl", "c14m_pipeline_witness", expect="witness-fail", unwind=6, bounds="assert(false) twin")
-H("C14", "shpk", "c14_selector_polynomial", unwind=8, timeout=300, bounds="all key lists of length 0..6 (symbolic length and keys)", encodes=["shpk::ShaderPackage::build_selector"])
+H("C14", "shpk", "c14_selector_polynomial", unwind=12, timeout=300, bounds="all key lists of length 0..10 (symbolic length and keys; 31^7.. exceed 32 bits)", encodes=["shpk::ShaderPackage::build_selector"])
 H("C14", "shpk", "c14_selector_from_all_keys", unwind=8, timeout=300, bounds="key lists of lengths (2,1,3,2), all key values", encodes=["shpk::ShaderPackage::build_selector_from_all_keys", "build_selector_from_keys"])
 H("C14", "shpk", "c14_find_node_resolution", unwind=8, timeout=600, bounds="2 nodes + 2 aliases with symbolic selectors / in-range targets, symbolic query", encodes=["shpk::ShaderPackage::find_node"], cbmc_args=FS1K)
 H("C14", "shpk", "c14s_pipeline_witness", expect="witness-fail", unwind=8, bounds="assert(false) twin")
@@ -456,3 +466,25 @@ H("C07", "model", "c07_update_headers_two_meshes", tier="thorough", unwind=5, ti
 H("C07", "model", "c07_replace_vertices_step", unwind=8, timeout=900, bounds="1 mesh: replace by 3 vertices / 6 symbolic indices / 1 sub-mesh with symbolic offset, from an arbitrary stale header",
   encodes=["model::MDL::replace_vertices"] + _UH, cbmc_args=FS1K)
 H("C07", "model", "c07m_pipeline_witness", expect="witness-fail", unwind=5, bounds="assert(false) twin", cbmc_args=FS1K)
+
+# later additions
+H("C05", "exd", "c05_subrows_with_strings", timeout=300, unwind=40, bounds="2 sub-rows each with a string cell (concrete texts / offsets, symbolic sub-row ids): per-sub-row string heap base",
+  encodes=_RR, cbmc_args=FS256)
+# (c17_gear_slots_positions_* in harness/gearsets.rs are not registered: building the HashMap ran out of memory)
+# C10: the digests stored in the table are SHA-1 (decided in full under C12; the padding boundaries also here)
+for n in (55, 56, 64, 120):
+    H("C10", "sha1", "c12_sha1_padding_len%d" % n, timeout=600, unwind=200, bounds="SHA-1 padding, message length %d (concrete), all contents" % n, **_PAD)
+H("C10", "sha1", "c12_sha1_compress_full", tier="thorough", timeout=900, unwind=82, bounds="SHA-1 compression function, all chaining values x all blocks", encodes=["sha1::Sha1State::process"])
+
+# C02: reassembly over an in-memory dat file (environment substitution, see TRANSFORMS)
+_MF = ["std::fs::File field of SqPackData -> in-memory file (support/memfile.rs; same Read + Seek behaviour for &handle)"]
+H("C02", "sqpack_data", "c02_standard_file_two_blocks", unwind=20, timeout=900, bounds="standard entry at offset 128, 2 raw blocks (5 + 3 bytes, table order != file order), all content bytes",
+  encodes=["sqpack::data::SqPackData::read_standard_file", "sqpack::read_data_block"], stubs=_MF, cbmc_args=FS1K)
+H("C02", "sqpack_data", "c02_model_file_stack_runtime", tier="thorough", unwind=72, timeout=3000, bounds="model entry: stack 1 block, runtime 2 blocks (raw, 2..4 bytes each), no vertex / index data; all content bytes",
+  encodes=["sqpack::data::SqPackData::read_model_file", "sqpack::read_data_block", "model::ModelFileHeader (BinWrite)"], stubs=_MF, cbmc_args=FS1K)
+H("C02", "sqpack_data", "c02_model_file_sections", tier="thorough", unwind=72, timeout=3000, bounds="model entry: stack 1 block, runtime 2 blocks, LOD0 vertex 1 + index 1 block (raw, 4..8 bytes each), all content bytes, any version / declaration / material counts",
+  encodes=["sqpack::data::SqPackData::read_model_file", "sqpack::read_data_block", "model::ModelFileHeader (BinWrite)"], stubs=_MF, cbmc_args=FS1K)
+H("C02", "sqpack_data", "c02d_pipeline_witness", expect="witness-fail", unwind=20, bounds="assert(false) twin", stubs=_MF, cbmc_args=FS1K)
+
+# slot index conversion is total on 0..13 (a record with an item in any on-disk slot must not make the reader panic)
+H("C17", "gearsets", "c09_slot_type_tables", unwind=4, bounds="all usize: GearSlotType::try_from is Ok exactly for 0..13", encodes=["gearsets::GearSlotType::try_from(usize)"])
